@@ -206,10 +206,15 @@ Definition substs_of_eq (c : cond) : list (string * expr) :=
 
 Definition substs1 (eqs : list cond) : list (string * expr) := flat_map substs_of_eq eqs.
 
-(* substitution sequences tried: none, one, two *)
+(* after the substitution s: what the equalities - with s applied to them - can be solved for (two equalities that fix the
+   same fluent, f = 0.9 g and f = - g, determine a second one, g = 0; sympy's subs() may use either one at each occurrence) *)
+Definition derived_substs (eqs : list cond) (s : string * expr) : list (string * expr) :=
+  flat_map (fun e => substs_of_eq (csubst s e)) eqs.
+
+(* substitution sequences tried: none, one, two (the second solved from the equalities as given or as rewritten by the first) *)
 Definition subst_seqs (eqs : list cond) : list (list (string * expr)) :=
   let s1 := substs1 eqs in
-  [] :: map (fun s => [s]) s1 ++ flat_map (fun s => map (fun t => [s; t]) s1) s1.
+  [] :: map (fun s => [s]) s1 ++ flat_map (fun s => map (fun t => [s; t]) (s1 ++ derived_substs eqs s)) s1.
 
 Definition apply_seq (sq : list (string * expr)) (c : cond) : cond := fold_left (fun c s => csubst s c) sq c.
 
